@@ -67,6 +67,17 @@ def para_two_specials(tier: str) -> Iterator[dict[str, Any]]:
             yield dict(key=f"para2/{ctx}/{a}+{b}", fam="para2", ctx=ctx, special=f"{a}+{b}", words=words, plines=[" ".join(words)])
 
 
+def para_after_sentence(tier: str) -> Iterator[dict[str, Any]]:
+    """A marker-like word directly after a sentence end: in semantic mode it starts a line of its own."""
+    th = tier == "thorough"
+    for ctx in (["top", "bullet", "quote"] if th else ["top", "bullet"]):
+        for m in (["-", "+", "1.", "#", ">qza", "---", "===", "2)"] if th else ["-", "1.", "#"]):
+            a = V.toks(3)
+            a[-1] += "."
+            words = a + [m] + V.toks(3, 12)
+            yield dict(key=f"sent/{ctx}/{m}", fam="sent", ctx=ctx, special=f"sent+{m}", words=words, plines=[" ".join(words)])
+
+
 def para_breaks(tier: str) -> Iterator[dict[str, Any]]:
     """Hard breaks (both spellings) and tag-adjacent newlines; hazard words right after the kept newline."""
     th = tier == "thorough"
@@ -88,6 +99,9 @@ def para_breaks(tier: str) -> Iterator[dict[str, Any]]:
         a, b = V.toks(2) + ["qzx" + chr(92) * 2], V.toks(2, 12)
         yield dict(key=f"hard-after-escaped-backslash-bs/{ctx}", fam="hardbreak", ctx=ctx, special="hard-after-esc-backslash", words=a + b, plines=[" ".join(a) + chr(92), " ".join(b)])
         yield dict(key=f"hard-after-escaped-backslash-sp/{ctx}", fam="hardbreak", ctx=ctx, special="hard-after-esc-backslash", words=a + b, plines=[" ".join(a) + "  ", " ".join(b)])
+        # an escaped numeral at the start of a source line after a soft break
+        a, b = V.toks(3), ["1" + chr(92) + "."] + V.toks(2, 12)
+        yield dict(key=f"softbreak-esc-numeral/{ctx}", fam="soft", ctx=ctx, special="softbreak+esc-numeral", words=a + b, plines=[" ".join(a), " ".join(b)])
         # plain soft break inside a paragraph (must vanish)
         a, b = V.toks(3), V.toks(3, 12)
         yield dict(key=f"softbreak/{ctx}", fam="soft", ctx=ctx, special="softbreak", words=a + b, plines=[" ".join(a), " ".join(b)])
@@ -164,6 +178,9 @@ BLOCKS: list[tuple[str, str]] = [
     ("fence4-indented-inner-tilde", "qaa\n\n ~~~~~\n x\n    ~~~~~~\n y\n ~~~~~\n\nqab\n"),
     ("fence4-in-list-inner", "- qaa\n\n   ````\n   x\n      ````\n   y\n   ````\n- qab\n"),
     ("fence5-plain", "`````text\nx\n````\ny\n`````\n"),
+    ("code-span-padded", "qaa `  qab  ` qac\n"),
+    ("heading-then-table", "# qaa\n| qab | qac |\n|---|---|\n| qad | qae |\n\nqaf qag\n"),
+    ("heading-then-table-in-quote", "> ## qaa\n> | qab | qac |\n> |---|---|\n> | qad | qae |\n>\n> qaf qag\n"),
     ("footnote-first-list-then-para", "qaa[^1]\n\n[^1]: - qab\n    - qac\n\n    qad\n"),
     ("empty-item", "- qaa\n-\n- qab\n"),
     ("empty-item-ordered-quote", "> 1. qaa\n> 2.\n> 3. qab qac\n"),
@@ -210,6 +227,7 @@ def all_families(tier: str) -> list[dict[str, Any]]:
     out += list(para_special(tier))
     out += list(para_two_specials(tier))
     out += list(para_breaks(tier))
+    out += list(para_after_sentence(tier))
     out += list(blocks(tier))
     return out
 
@@ -302,6 +320,9 @@ def finding_class(case: dict[str, Any]) -> str:
       tag-newline       a newline next to a tag/comment is significant (also one that wrapping produced itself)
       marker-after-kept-newline  a list marker right after a kept newline (hard break / tag newline) starts a list
                         in the source already; only spacing around it is at stake
+      sentence-initial-marker  semantic mode: the first word of a sentence that starts a line is not escaped
+      escaped-numeral-after-soft-break  '1\\.' at a source line start keeps its escape, is joined mid-line, loses it next run
+      code-span-inner-space-runs  whitespace runs inside a code span are collapsed by wrapping, one space per run and pass
       heading-then-block-in-tight-item  a heading always gets a blank line after it; directly inside an item of a
                         tight list that blank line makes the list loose for the next run
       footnote-first-line-list  a list that starts on the label line of a footnote definition: Marko reads the
@@ -319,6 +340,12 @@ def finding_class(case: dict[str, Any]) -> str:
         return "closing-tag"
     if sp in TAGLIKE or (fam == "para2" and any(x in TAGLIKE for x in sp.split("+"))):
         return "tag-newline"
+    if fam == "sent":
+        return "sentence-initial-marker"
+    if sp == "softbreak+esc-numeral":
+        return "escaped-numeral-after-soft-break"
+    if sp == "code-span-padded":
+        return "code-span-inner-space-runs"
     if sp.startswith("tight-item-heading-then-"):
         return "heading-then-block-in-tight-item"
     if sp == "footnote-first-list-then-para":
